@@ -281,6 +281,9 @@ func runC19(o *Options) *Result {
 		"regions-nested":        `{% htmlescape %}<b>{%= user.Name %}{% urlencode %}a b&{%= user.Id %}{% endurlencode %}</b>{% jsonquote %}"{%= user.Name %}"{% endjsonquote %}{% endhtmlescape %}`,
 		"switch-in-loops":       `{% for _, a := range user.Finance.History %}{% switch a.Cost %}{% case 14.345241 %}A{% case 60 %}B{% default %}C{% endswitch %}{% for j := 0; j < 2; j++ %}{% if a.Cost > 20 %}{%= a.Cost|default(0) %}{% else %}-{% endif %}{% endfor %}{% endfor %}`,
 	}
+	if t, err := dyntpl.Parse([]byte("<{%= user.Id %}>"), false); err == nil {
+		dyntpl.RegisterTplKey("scaled-include-target-with-a-key-longer-than-thirty-two-bytes", t)
+	}
 	var snames []string
 	for k := range scaled {
 		snames = append(snames, k)
